@@ -52,5 +52,22 @@ def run(ctx):
         for fam, _what in STREAMS:
             res = ctx.correspondence(fam, hbin, [fam], drv, [fam])
             ctx.judge(res, theorem_hint="Poly.Props.C30.* (model Poly.Model.LCTm no longer matches the %s handlers)" % fam)
-    ctx.cov["not_covered"] = []
+    ctx.cov["not_covered"] = [
+        "cosmos ProofRuntime: the ICS-23 commitment ops (ics23:iavl, ics23:simple; proof.go CommitmentOp) are registered but "
+        "not driven - deposits are driven with IAVL value/absence ops + the multistore op only (the proof runtime is a "
+        "parameter of the theorems)",
+        "validator key types sr25519 and multisig (registered in the cosmos codec) are not driven: pools are ed25519 + secp256k1 "
+        "(cosmos, okex) and heimdall secp256k1",
+        "okex: a validator with an ethermint ethsecp256k1 key (registered in the okex codec) makes ValidatorSet.Hash() panic "
+        "(tendermint's package codec does not know the type); named here, not driven and not modelled",
+        "heimdall: a precommit signature shorter than 64 bytes makes PubKeySecp256k1.VerifyBytes slice out of range (panic); "
+        "named here, not driven and not modelled",
+        "amino decoding is exercised as decodable / undecodable only (nil list elements, nil public keys are not generated)",
+        "the bor header-sync path that calls VerifySpan (C29) and the entrance gate that dispatches to MakeDepositProposal "
+        "(C21/C22) are not part of these streams: VerifySpan and the handlers are called directly",
+        "event notifications of PutEpochSwitchInfo are not compared",
+        "cosmos router: the header's chain id is never compared with the tracked chain id (a header of another chain id "
+        "with the trusted validator set is accepted: exercised, shape header-of-other-chain); C30 does not state a chain-id "
+        "condition, so this is reported as an observation, not as a violation",
+    ]
     ctx.judge_lean()
